@@ -45,6 +45,10 @@ class AbstractDenseTimeOnlineInterpreter(AbstractOnlineInterpreter, DenseTimeInt
 
         return rob
 
+    def reset(self):
+        # the dense-time operations do not implement reset: build them anew
+        self.set_ast(self.ast)
+
     def update_final(self, dataset):
         # check ast exists
         self.exist_ast()
